@@ -299,6 +299,26 @@ func ruleL15(p *Prog, r *Report) {
 				}
 			})
 			if !updated {
+				// ... or a private method of the receiver that f calls updates it (the append-and-register half extracted)
+				eachInstr(f, func(y ssa.Instruction) {
+					c, ok := y.(*ssa.Call)
+					if !ok {
+						return
+					}
+					g := c.Call.StaticCallee()
+					if g == nil || g.Pkg != p.RootSSA || len(g.Blocks) == 0 || recvName(g) != recvName(f) || len(c.Call.Args) == 0 || !sameValue(c.Call.Args[0], recv) {
+						return
+					}
+					eachInstr(g, func(z ssa.Instruction) {
+						if mu, ok := z.(*ssa.MapUpdate); ok {
+							if fr2, ok := asLoadedField(mu.Map); ok && fr2.Field == fr.Field {
+								updated = true
+							}
+						}
+					})
+				})
+			}
+			if !updated {
 				return
 			}
 			n++
